@@ -66,7 +66,7 @@ func drawPlan(t *rapid.T, g *gspec.Grammar, nFaults int, pure bool, panics bool)
 				f.Nth = gspec.U(t, 4, "faultnth")
 			}
 			if panics && gspec.U(t, 4, "faultpanic") == 0 {
-				f.Kind = gspec.Pick(t, []string{"panic_err", "panic_str"}, "panickind")
+				f.Kind = gspec.Pick(t, []string{"panic_err", "panic_str", "panic_int"}, "panickind")
 			}
 			p.Faults = append(p.Faults, f)
 		}
@@ -496,6 +496,9 @@ func samePanic(want, got any, ctx *vrt.Ctx) bool {
 		if e, ok := got.(error); ok {
 			return e.Error() == w
 		}
+	case int:
+		g, ok := got.(int)
+		return ok && g == w
 	}
 	return false
 }
